@@ -365,7 +365,7 @@ def run(ck: Check) -> int:
     ck.trusted_extra = ["the elementary decoder is the C02 model (Decode.unpack), composed with Layout.valueAt in the driver",
                         "Python dict/list values are compared through a canonical dump; Decimal by (sign, digits, exponent)"]
     ck.assumptions = ["REDEFINES participants are not elementary OCCURS items (D34)", "DEPENDING ON tables are not inside repeated groups (D17)"]
-    ck.prove(["Stingray.Props.C10"])
+    ck.prove(["Stingray.Props.C10", "Stingray.Tie.C01"])
     explore(ck, 60 if ck.tier == "quick" else 1500)
     return ck.finish(search=lambda c: explore(c, 300))
 
